@@ -117,7 +117,7 @@ def run(ctx):
             ncols = n + int(rs.randint(0, 4))
             scope = [int(v) for v in rs.choice(ncols, n, replace=False)]     # permuted, non-contiguous labels
             one_case(ctx, rs, scope, pred, f'exh{n}')
-            if len(ctx.violations) >= 3:
+            if ctx.n_new() >= 3:
                 return
     ctx.extra['exhaustive_tree_shapes_up_to'] = nmax_exh
     for j in range(40 if quick else 600):
@@ -127,7 +127,7 @@ def run(ctx):
         ncols = n + int(rs.randint(0, 5))
         scope = [int(v) for v in rs.choice(ncols, n, replace=False)]
         one_case(ctx, rs, scope, [int(t) for t in clt0.tree], 'rand')
-        if len(ctx.violations) >= 3:
+        if ctx.n_new() >= 3:
             return
 
 
